@@ -31,6 +31,10 @@ pub enum Tail {
     Fused,
     /// After the script: the last event again, forever (a stream that never stops).
     Repeat,
+    /// After the script: `None` ONCE; polling again after that panics (what
+    /// `futures_util::stream::unfold` -- the combinator behind `ChunkedReadFile` -- does). Only
+    /// used with honest scripts and without extra polls after the body's end.
+    Strict,
 }
 
 #[derive(Clone, Debug, PartialEq, Eq, Hash)]
@@ -71,7 +75,7 @@ impl Script {
                 Ev::Err => serde_json::json!("err"),
             })
             .collect();
-        serde_json::json!({"evs": evs, "tail": match self.tail { Tail::Fused => "fused", Tail::Repeat => "repeat" }})
+        serde_json::json!({"evs": evs, "tail": match self.tail { Tail::Fused => "fused", Tail::Repeat => "repeat", Tail::Strict => "strict" }})
     }
     pub fn from_json(v: &serde_json::Value) -> Script {
         let evs = v["evs"]
@@ -92,6 +96,7 @@ impl Script {
             .collect();
         let tail = match v["tail"].as_str() {
             Some("repeat") => Tail::Repeat,
+            Some("strict") => Tail::Strict,
             _ => Tail::Fused,
         };
         Script { evs, tail }
@@ -127,6 +132,10 @@ pub struct EntSpec {
     pub headers: Vec<(String, Vec<u8>)>,
     /// Script for the k-th `get_range` call (the last one is reused for later calls).
     pub scripts: Vec<Script>,
+    /// How `add_headers` treats the map it is given: 0 = appends its headers (the default);
+    /// 1 = looks at the map first (its headers only if there is no Content-Range yet, else
+    /// `x-partial: 1`); 2 = `insert`s (replaces) instead of appending.
+    pub hdr_mode: u8,
 }
 
 pub struct ScriptEnt {
@@ -151,6 +160,7 @@ struct ScriptStream {
     pos: u64,
     script: Script,
     i: usize,
+    ended: bool,
 }
 
 impl Stream for ScriptStream {
@@ -163,6 +173,13 @@ impl Stream for ScriptStream {
         } else {
             match (self.script.tail, self.script.evs.last()) {
                 (Tail::Repeat, Some(e)) => *e,
+                (Tail::Strict, _) => {
+                    if self.ended {
+                        panic!("entity stream polled again after it returned Poll::Ready(None)");
+                    }
+                    self.ended = true;
+                    return Poll::Ready(None);
+                }
                 _ => return Poll::Ready(None),
             }
         };
@@ -207,16 +224,23 @@ impl http_serve::Entity for ScriptEnt {
             pos: range.start,
             script,
             i: 0,
+            ended: false,
         })
     }
 
     fn add_headers(&self, h: &mut HeaderMap) {
         self.log.lock().unwrap().add_headers += 1;
+        if self.spec.hdr_mode == 1 && h.contains_key("content-range") {
+            h.append("x-partial", HeaderValue::from_static("1"));
+            return;
+        }
         for (k, v) in &self.spec.headers {
-            h.append(
-                HeaderName::from_bytes(k.as_bytes()).expect("harness header name"),
-                HeaderValue::from_bytes(v).expect("harness header value"),
-            );
+            let (name, value) = (HeaderName::from_bytes(k.as_bytes()).expect("harness header name"), HeaderValue::from_bytes(v).expect("harness header value"));
+            if self.spec.hdr_mode == 2 {
+                h.insert(name, value);
+            } else {
+                h.append(name, value);
+            }
         }
     }
 
